@@ -7,6 +7,12 @@ props = [json.loads(l) for l in open('/verif/properties.jsonl')]
 plist = '\n'.join(f"  {p['id']}: {p['title']} — {p['statement']}" for p in props)
 AREAS = {
  '5': {},
+ '11': {'xslF': ('bluebell/akn_text.xsl', 'the templates for attachments, the preface / preamble / conclusions containers, the BODY marker, judgment and debate containers, long titles and crossheadings'),
+        'typesG': ('bluebell/types.py', 'BlockAttrs / BlockAttr (attribute pairs and classes), table and cell classes, P, Line, Longtitle, Crossheading, the preface / preamble / conclusions containers'),
+        'xmlD': ('bluebell/xml.py', 'add_meta, wrap_akn, attachment_frbr_uri, set_attachment_titles, item_to_xml_element_attachment, xml_from_dict / xml_from_tree / to_xml'),
+        'parserC': ('bluebell/parser.py and bluebell/cli.py', 'parse, parse_with_failure, the root aliases, unparse, and the command-line tool'),
+        'pegE': ('bluebell/akn.peg together with the matching hand edit in the generated bluebell/akn.py', 'block attributes (classes, attribute pairs), table / row / cell rules, bullet list rules, block quote and blocks rules'),
+        'idgenB': ('bluebell/xml.py', 'IdGenerator: rewrite_eid / rewrite_all_eids / rewrite_id_prefix, the mapping it returns, the exempt and pass-through element sets, incr / reset')},
  '10': {'nums': ('any file of the package', 'numbers: the num of hierarchical elements and items, its escaping, clean_num, counters for unnumbered elements, clash suffixes, attachment numbering'),
         'esc': ('any file of the package', 'backslash escaping across the pipeline: pre_parse, the grammar escape rule, unescape in types.py, the escaping helpers of the stylesheet'),
         'att': ('any file of the package', 'attachments: nesting, component names and FRBR URIs, headings / subheadings / titles, attributes, what may follow an attachment'),
